@@ -438,7 +438,7 @@ def decode_case(case):
 def specs_cls(c, th):
   out = [{'name': 'CrossEntropyLoss'}, {'name': 'Accuracy'}, {'name': 'ConfusionMatrix', 'num_classes': c}]
   out += [{'name': 'TopKAccuracy', 'k': k} for k in sorted({-2, -1, 0, 1, 2, c, c + 1})]
-  for nd in (2, 3):
+  for nd in (1, 2, 3):
     out.append({'name': 'PerDomainMetric', 'base': {'name': 'Accuracy'}, 'num_domains': nd})
     out.append({'name': 'PerDomainMetric', 'base': {'name': 'CrossEntropyLoss'}, 'num_domains': nd})
   out.append({'name': 'PerDomainMetric', 'base': {'name': 'ConfusionMatrix', 'num_classes': c}, 'num_domains': 2})
